@@ -56,7 +56,7 @@ SomeD1 == {CNode("U", 16, "indef", <<PNode("U", 2, "min", <<5>>)>>), CNode("C", 
 D2 == {CNode(t[1], t[2], lf, k) : t \in {<<"U", 16>>, <<"C", 1>>}, lf \in {"min", "indef"}, k \in KidSeqs(SomeD1 \cup {PNode("U", 2, "min", <<5>>)})}
 D3 == {CNode("U", 16, lf, <<x>>) : lf \in {"min", "indef"}, x \in {CNode("C", 1, l2, <<y>>) : l2 \in {"min", "indef"}, y \in SomeD1}}
 \* long primitives followed by siblings: the printed line length sweeps over every residue of the tools' I/O chunk size
-LongSweep == IF Rich THEN {<<CNode("U", 16, "min", <<PNode("U", 4, "min", Zeros(n)), PNode("U", 2, "min", <<5>>), PNode("U", 5, "min", <<>>)>>)>> : n \in 1300..2700}
+LongSweep == IF Rich THEN {<<CNode("U", 16, "min", <<PNode("U", 4, "min", Zeros(n)), PNode("U", 2, "min", <<5>>), PNode("U", 5, "min", <<>>)>>)>> : n \in 1300..2800}
              ELSE {<<CNode("U", 16, "min", <<PNode("U", 4, "min", Zeros(n)), PNode("U", 2, "min", <<5>>)>>)>> : n \in {1364, 1365, 1366, 2719, 2730}}
 Forests == {<<n>> : n \in Prims \cup D1 \cup D2 \cup D3}
            \cup {<<a, b>> : a \in SomeD1 \cup SomePrims, b \in SomeD1 \cup SomePrims}
